@@ -294,6 +294,13 @@ def graph_keys(prog: Program) -> RuleResult:
             )
             if not (empty and guarded_absent):
                 replaced = node
+        elif isinstance(node, ast.Assign) and any(dotted(t) == g for t in node.targets) and loops_around(fn, node):
+            # the graph itself rebuilt inside the loop from a dictionary display / union: a later entry for the same
+            # family replaces its successor set
+            val = node.value
+            merges = (isinstance(val, ast.Dict) and any(k is None for k in val.keys)) or (isinstance(val, ast.BinOp) and isinstance(val.op, ast.BitOr)) or (isinstance(val, ast.Call) and dotted(val.func) in ("dict", "ChainMap"))
+            if merges:
+                replaced = node
     if replaced is not None:
         res.fail(
             f"{base}/accumulate",
